@@ -209,6 +209,29 @@ pub fn gen(seed: u64, thorough: bool) {
             }
         }
     }
+    // (c2) two specials in one literal: the decoder must act on whichever comes first in a block
+    let firsts: &[&[u8]] = &[b"\x01", b"\x1f", b"\\n", b"\\\"", b"\xc3\xa9", b"\xff", b"\\uD800"];
+    let seconds: &[&[u8]] = &[b"\\n", b"\\u00e9", b"\x01", b"\\x", b"\\\\", b"\xe4\xb8\xad"];
+    let lens2: Vec<usize> = if thorough { (0..=80).collect() } else { vec![0, 5, 20, 30, 31, 32, 33, 40, 63, 64, 70] };
+    for &len in &lens2 {
+        for f in firsts {
+            for sd in seconds {
+                let reps = if thorough { 4 } else { 2 };
+                for _ in 0..reps {
+                    let p1 = r.below(len + 1);
+                    let p2 = p1 + r.below(len - p1 + 1);
+                    let mut body = Vec::new();
+                    for k in 0..=len {
+                        if k == p1 { body.extend_from_slice(f); }
+                        if k == p2 { body.extend_from_slice(sd); }
+                        if k < len { body.push(b'a' + (k % 26) as u8); }
+                    }
+                    let off = r.below(40);
+                    emit(&mut out, off, &body, if r.chance(1, 3) { b'a' } else { b'p' }, &mut r);
+                }
+            }
+        }
+    }
     // (d) random bodies with mutations
     let n = if thorough { 40000 } else { 3000 };
     let cfg = GenCfg::default();
